@@ -20,22 +20,23 @@ die() { echo "HARNESS ERROR: $*" >&2; exit 2; }
 build() { # build <plain|instr> -> binary path in $BIN
 	local mode=$1
 	cd "$VERIF/mc" || die "no mc module"
-	cp "$REPO/go.sum" go.sum 2>/dev/null
-	if [ "$mode" = instr ]; then
-		go run ./cmd/mqinstr -repo "$REPO" -out "$T/instr" -overlay "$T/overlay.json" -report "$T/report.json" >"$T/instr.log" 2>&1 \
+	cp /repo/go.sum go.sum 2>/dev/null
+	# The harness module resolves the library at /repo; -as /repo makes the
+	# overlays stand in for /repo's files, so VERIF_REPO may point elsewhere
+	# (default: /repo itself).
+	if [ ! -f "$T/report.json" ]; then
+		go run ./cmd/mqinstr -repo "$REPO" -as /repo -out "$T/instr" -overlay "$T/overlay.json" -plain-overlay "$T/plain-overlay.json" -report "$T/report.json" >"$T/instr.log" 2>&1 \
 			|| { cat "$T/instr.log" >&2; die "instrumentation of $REPO failed"; }
+	fi
+	if [ "$mode" = instr ]; then
 		go build -tags verif -overlay "$T/overlay.json" -o "$T/mccheck" ./cmd/mccheck >"$T/build.log" 2>&1 \
 			|| { cat "$T/build.log" >&2; die "instrumented build failed"; }
+		BIN="$T/mccheck"
 	else
-		go run ./cmd/mqinstr -repo "$REPO" -out "$T/instr" -overlay "$T/overlay.json" -report "$T/report.json" >"$T/instr.log" 2>&1 \
-			|| { cat "$T/instr.log" >&2; die "static analysis of $REPO failed"; }
-		go build -tags verif -o "$T/mccheck-plain" ./cmd/mccheck >"$T/build.log" 2>&1 \
+		go build -tags verif -overlay "$T/plain-overlay.json" -o "$T/mccheck-plain" ./cmd/mccheck >"$T/build.log" 2>&1 \
 			|| { cat "$T/build.log" >&2; die "build failed"; }
 		BIN="$T/mccheck-plain"
-		cd "$VERIF"
-		return
 	fi
-	BIN="$T/mccheck"
 	cd "$VERIF"
 }
 
@@ -50,7 +51,7 @@ case "${1:-}" in
 setup)
 	build instr
 	build plain
-	(cd "$VERIF/mc" && go build -race -tags verif -o "$T/mcrace" ./cmd/mcrace 2>/dev/null || true)
+	(cd "$VERIF/mc" && go build -race -tags verif -overlay "$T/plain-overlay.json" -o "$T/mcrace" ./cmd/mcrace 2>/dev/null || true)
 	echo "setup done"
 	;;
 replay)
@@ -67,14 +68,16 @@ C[0-9][0-9])
 		export VERIF_PLAIN_BIN="$BIN"
 	fi
 	build "$(mode_of "$id")"
-	mkdir -p "$VERIF/evidence" "$VERIF/replays"
+	EVD=${VERIF_EVIDENCE_DIR:-$VERIF/evidence}
+	RPD=${VERIF_REPLAY_DIR:-$VERIF/replays}
+	mkdir -p "$EVD" "$RPD"
 	extra=()
 	if [ "$id" = C13 ]; then
-		(cd "$VERIF/mc" && go build -race -tags verif -o "$T/mcrace" ./cmd/mcrace >"$T/race.log" 2>&1) || { cat "$T/race.log" >&2; die "race build failed"; }
+		(cd "$VERIF/mc" && go build -race -tags verif -overlay "$T/plain-overlay.json" -o "$T/mcrace" ./cmd/mcrace >"$T/race.log" 2>&1) || { cat "$T/race.log" >&2; die "race build failed"; }
 		export VERIF_RACE_BIN="$T/mcrace"
 	fi
-	"$BIN" -prop "$id" -tier "$tier" -evidence "$VERIF/evidence/$id.json" -instr-report "$T/report.json" \
-		-known "$VERIF/known_findings.json" -replays "$VERIF/replays" "${extra[@]}"
+	"$BIN" -prop "$id" -tier "$tier" -evidence "$EVD/$id.json" -instr-report "$T/report.json" \
+		-known "$VERIF/known_findings.json" -replays "$RPD" "${extra[@]}"
 	;;
 *)
 	die "usage: run.sh <Cnn> <quick|thorough> | replay <file> | setup"
